@@ -40,9 +40,10 @@ def expand_content(content):
     if isinstance(content, str) and content.startswith("@BIG:"):
         return "L" * 70000 + content[5:]
     return content
-LITS = ["hi", "-x", "1", "0", "A", "B", "gen", "out.txt", "--n=3", "a,b", "stage0", "x/y", "ref", "file"]
+LITS = ["hi", "-x", "1", "0", "A", "B", "gen", "out.txt", "--n=3", "a,b", "stage0", "x/y", "ref", "file",
+        "'p q'", "'p  q'", "'p\tq'"]        # (quoted words that differ only in the white space inside them)
 PREFIXES = ["", "", "-f=", "k,", "--in="]
-SUFFIXES = ["", "", "", ",z"]
+SUFFIXES = ["", "", "", ",z", "/sub/in.dat", ".bak", "-old"]     # text glued behind a reference (path below a directory)
 PFILES = ["o.txt", "f.dat", "d/e.txt"]
 IFILES = ["a.txt", "b.txt", "c/d.txt"]
 FILE_METHODS_ARGS = ["ref", "copy", "link", "output"]
